@@ -122,6 +122,32 @@ fn check_code(code: &u16, case: &mut Case) -> Result<(), Fail> {
     if let Ok(q) = qc {
         ensure!(u16::from(q) == c, "c18:qclass-roundtrip", "QCLASS {} converts back to {}", c, u16::from(q));
     }
+    // the same code arriving in a question of a message: accepted with that very type, or the message is refused
+    {
+        let mut m = vec![0x18, 0x18, 0, 0, 0, 1, 0, 0, 0, 0, 0, 0, 0];
+        m.extend_from_slice(&c.to_be_bytes());
+        m.extend_from_slice(&[0, 1]);
+        match parse(&m)? {
+            Ok(p) => {
+                ensure!(supported || special, "c18:qtype-aliased", "a message asking for the unsupported question type {} was accepted", c);
+                ensure!(p.questions.len() == 1, "c18:question-dropped", "a message with one question of type {} parses with {} questions", c, p.questions.len());
+                ensure!(u16::from(p.questions[0].qtype) == c, "c18:qtype-roundtrip", "a question of type {} is reported as {:?}", c, p.questions[0].qtype);
+            }
+            Err(_) => ensure!(!(supported || special), "c18:qtype-rejected", "a message asking for question type {} was refused", c),
+        }
+        // and as a question class
+        let mut m = vec![0x18, 0x19, 0, 0, 0, 1, 0, 0, 0, 0, 0, 0, 0, 0, 1];
+        m.extend_from_slice(&c.to_be_bytes());
+        let class_ok = [1u16, 2, 3, 4, 254, 255].contains(&(c & 0x7fff));
+        match parse(&m)? {
+            Ok(p) => {
+                ensure!(class_ok, "c18:qclass-aliased", "a message with question class field {:#06x} was accepted", c);
+                ensure!(p.questions.len() == 1, "c18:question-dropped", "a message with one question of class {:#06x} parses with {} questions", c, p.questions.len());
+                ensure!(u16::from(p.questions[0].qclass) == c & 0x7fff && p.questions[0].unicast_response == (c & 0x8000 != 0), "c18:qclass-roundtrip", "a question with class field {:#06x} is reported as {:?} / unicast {}", c, p.questions[0].qclass, p.questions[0].unicast_response);
+            }
+            Err(_) => ensure!(!class_ok, "c18:qclass-rejected", "a message with question class field {:#06x} was refused", c),
+        }
+    }
     // the infallible conversions record type -> question type and class -> question class keep the code
     let via: QTYPE = lib("QTYPE::from(TYPE)", || QTYPE::from(t))?;
     ensure!(via == QTYPE::TYPE(t) && u16::from(via) == c, "c18:type-into-qtype", "QTYPE::from(TYPE::from({})) = {:?} (code {})", c, via, u16::from(via));
@@ -314,7 +340,7 @@ fn check_parsed_types(input: &super::c01::Mutated, case: &mut Case) -> Result<()
 pub fn def() -> CheckDef {
     CheckDef {
         id: "C18",
-        rule: "exhaustive: all 65536 codes through TYPE/QTYPE/CLASS/QCLASS conversions against an independently typed IANA table; (record type: 40 supported + NULL + 9 unknown codes) x {content, empty, catch-all NULL variant carrying the code} x 5 classes x {constructed, parsed, owned copy of each} x {cache-flush bit clear, set} x (41 named question types + ANY + MAILB + own unknown type) and x 6 question classes. Plus, proptest: mutated reference encodings (as C01/C11) that the parser accepts: every parsed record reports the TYPE and CLASS field of its wire entry (located by the independent envelope walker) and matches its own type, MAILB, a NULL question and question classes accordingly. Non-trivial = supported/special/low code; every matching case",
+        rule: "exhaustive: all 65536 codes through TYPE/QTYPE/CLASS/QCLASS conversions against an independently typed IANA table, and as the QTYPE / QCLASS field of a one-question message (accepted with that very code, or refused); (record type: 40 supported + NULL + 9 unknown codes) x {content, empty, catch-all NULL variant carrying the code} x 5 classes x {constructed, parsed, owned copy of each} x {cache-flush bit clear, set} x (41 named question types + ANY + MAILB + own unknown type) and x 6 question classes. Plus, proptest: mutated reference encodings (as C01/C11) that the parser accepts: every parsed record reports the TYPE and CLASS field of its wire entry (located by the independent envelope walker) and matches its own type, MAILB, a NULL question and question classes accordingly. Non-trivial = supported/special/low code; every matching case",
         assumptions: vec![
             "IANA RR TYPE registry values typed into checks/c18.rs",
             "the statement is silent on MAILA/AXFR/IXFR matching; not checked",
